@@ -21,6 +21,20 @@ NOTES = {
  'C15c': 'first missed: observations now optionally carry an unexplained extra key',
  'C16b': 'first caught only through a harness artefact; one-feature explainers added to part B',
  'C20c': 'first missed: part (iii) compared the implementation with itself on exact inputs; an independent closed-form PFI reference was added',
+ 'C01d': 'first missed: update_storage=False was never driven on the first call; now allowed whenever the imputer does not read the explainer storage (DefaultImputer)',
+ 'C02d': 'first missed: needs 3 explained observations (a skipped no-op update after the first one); long streams (5-6 observations) added around the two base executions',
+ 'C04d': 'first missed: the public sampling_strategy attribute is now also reassigned after construction',
+ 'C06d': 'first missed (then a harness error): sparse instances that lack a requested feature are driven; the model spy reports incomplete inputs',
+ 'C08d': 'the storage is corrupted through the imputer: caught by C06 (storage modified) and by new through-explainer drivers in C07 and C08',
+ 'C09d': 'first missed: targets are now taken from a menu with falsy values (0, False, "", 0.0, None)',
+ 'C10d': 'first missed: np.uint8 / np.int8 / np.uint16 streams added',
+ 'C11d': 'first missed: statistics were read after every update; all read masks over a position-coded stream added',
+ 'C12d': 'first missed: the caller now keeps mutating the base tracker it passed in',
+ 'C15d': 'first missed: the user model now raises at every evaluation position of the last call and x must be untouched',
+ 'C16d': 'first missed: a deep copy of the explainer is checked while only the original moves on',
+ 'C17d': 'first missed: the injected fault was a plain Exception subclass; it is now an instance of ValueError, IndexError, KeyError, TypeError, ... at once',
+ 'C18d': 'first missed: ONE river model object with string labels is now shared by all cells of a process',
+ 'C19d': 'first missed: one long-lived TreeImputer object is now used before every 4th update of every block word',
  'es_alpha_swapped': 'first missed: alpha=1/2 is symmetric; the quick product now uses alpha=1/4 (also killed by the repository tests)',
 }
 def catches(r):
